@@ -121,11 +121,33 @@ VerPSS(scheme, mut, samekey, samehash, samedigest, vmode, vn, slen, hlen) ==
                 "noff"   one padding octet is not FF
                 "trail"  padding shortened to 8 octets, garbage appended after the digest
                 "prefix" one octet of the DigestInfo prefix changed
+     forgedpss  (from a genuine EMSA-PSS encoding EM = maskedDB || H || BC, RFC 8017 9.1.2)
+                "topbit" bit (modBits-1) of the decoded integer set: for modBits = 1 mod 8 this is a
+                         non-zero octet in front of EM (the octet the verifier strips: 8.1.2 step 2c
+                         "emLen = ceil((modBits-1)/8)" - the integer must convert to emLen octets),
+                         otherwise one of the leftmost 8*emLen-emBits bits of maskedDB (step 6)
+                "trailer" last octet not BC (step 4)
+                "ps"     a non-zero octet in the padding string of DB (step 10)
+                "sep"    the 01 separator of DB replaced (step 10)
+                "hash"   one octet of H changed (step 14)
+     forgedoaep (EME-OAEP encodings built from scratch with MGF1, RFC 8017 7.1.2 step 3g)
+                "y"      leading octet Y not zero
+                "lhash"  lHash' differs from the label hash
+                "nosep"  no 01 separator between PS and M (M starts with FF)
+                "ps"     a non-zero octet in PS
+                ("genuine" - a correct encoding - checks the constructor: scheme "oaep")
    RFC 8017 7.2.2 step 3 and 8.2.2 step 4 reject all of them deterministically; the schemes
-   "forgedenc" / "forgedsig" fall into the rejecting branches of the operators above
-   (VerPKCS1 / VerPSS accept only "pkcs1sig" / "pss").                                  *)
+   "forgedenc" / "forgedsig" / "forgedpss" / "forgedoaep" fall into the rejecting branches of
+   the operators above (VerPKCS1 / VerPSS accept only "pkcs1sig" / "pss", DecOAEP only "oaep").
+   Key classes whose modulus length is not a multiple of 8 (513, 1025, 1027, 1030, 2049 ...)
+   exercise K(bits) /= EmLenPSS(bits) and the partial leading octet.                     *)
 ForgedEnc == {"ps7", "nozero", "b0", "bt1"}
 ForgedSig == {"bt2", "noff", "trail", "prefix"}
+ForgedPSS == {"topbit", "trailer", "ps", "sep", "hash"}
+ForgedOAEP == {"y", "lhash", "nosep", "ps"}
+(* octets of padding string in DB of a PSS encoding / an OAEP encoding *)
+PSSPadLen(bits, hlen, slen) == EmLenPSS(bits) - hlen - slen - 2
+OAEPPadLen(bits, hlen, mlen) == K(bits) - mlen - 2 * hlen - 2
 
 (* Z and S must show the SAME outcome (including the same garbage bytes) when they consume
    the same object with the same parameters: both are deterministic functions of the same
